@@ -22,7 +22,7 @@ EXPLANATION = (
     'inside the exception wrapper; (g) the sent-futures handed to the application are settled by the close sequence '
     '(both queues drained) and by the sender on every edge out of the write. Not decided: behaviour per byte offset '
     '(all cut points funnel into the three receiver exits) and timing.')
-EXPLANATION_ADDED = ("(h) the reconnect listener's exits fail the registered streams; (i) a cancellation delivered inside the sender or the keepalive loops ends the task; wrap_transport_exception really raises RSocketTransportError; _fail_unsent_frames drains both queues (only while non-empty, until empty) and fails every pending sent-future; close() stops the tasks and then closes an obtained transport; the loop's isinstance dispatch agrees with the handler roles derived from behaviour; (j) close() of a load-balancer strategy closes every member of the pool requests are routed over, with one member's failing close() isolated from the others (gather with return_exceptions, or a contained await per member), and the load-balancer socket's close()/__aexit__ await it unconditionally; a failing transport.close() is contained in _close_transport; (k) every message (websocket-style) transport puts an exception into its incoming queue on every way its feeder can stop - normal end, error, and cancellation unless the feeder is a task the transport itself owns and cancels from close() - or, for call-back style feeders, from the disconnect call-back, so the receiver runs the close sequence when the peer goes away.")
+EXPLANATION_ADDED = ("(h) the reconnect listener's exits fail the registered streams; (i) a cancellation delivered inside the sender or the keepalive loops ends the task; wrap_transport_exception really raises RSocketTransportError; _fail_unsent_frames drains both queues (only while non-empty, until empty) and fails every pending sent-future; close() stops the tasks and then closes an obtained transport; the loop's isinstance dispatch agrees with the handler roles derived from behaviour; (j) close() of a load-balancer strategy closes every member of the pool requests are routed over, with one member's failing close() isolated from the others (gather with return_exceptions, or a contained await per member), and the load-balancer socket's close()/__aexit__ await it unconditionally; a failing transport.close() is contained in _close_transport; (k) every message (websocket-style) transport puts an exception into its incoming queue on every way its feeder can stop - normal end, error, and cancellation unless the feeder is a task the transport itself owns and cancels from close() - or, for call-back style feeders, from the disconnect call-back, so the receiver runs the close sequence when the peer goes away; (l) the awaitable adapter's close / connect / context-manager methods run the wrapped socket's coroutine (awaited or returned), not merely create it.")
 EXPLANATION = EXPLANATION.replace(' Not decided', ' ' + EXPLANATION_ADDED + ' Not decided', 1) \
     if ' Not decided' in EXPLANATION else EXPLANATION + ' ' + EXPLANATION_ADDED
 ASSUMPTIONS = COMMON_ASSUMPTIONS + [
@@ -438,6 +438,18 @@ def rule_e(ctx):
                         ok2, 'cancelled by the close sequence that follows the receiver exit' if ok2 else
                         'the task stored in self.%s keeps running after the connection was lost' % a)
     rep.require('C11.e', 'task attributes of the socket classes', total, 5)
+    # the helper every one of those cancellations goes through contains whatever the cancelled task raises while it
+    # unwinds: otherwise the first failing task would keep _stop_tasks from reaching the others
+    from .msgtransports import escaping_exits
+    helper = ctx.repo.func('rsocket.helpers:cancel_if_task_exists')
+    esc = escaping_exits(helper)
+    awaits = [n for n in walk_local(helper.node) if isinstance(n, ast.Await)]
+    if not awaits:
+        raise AnalysisError('C11.e: cancel_if_task_exists awaits nothing')
+    rep.add('C11.e', 'cancel_if_task_exists / what the cancelled task raises is contained', helper, not esc,
+            'the awaited task\'s CancelledError and any other exception are handled inside the helper' if not esc else
+            'an %s out of the awaited task escapes the helper: the caller\'s remaining cancellations are skipped' %
+            ' / '.join(esc))
     # tasks kept in local variables are cancelled in a finally of the same function
     for cls in _socket_classes(ctx):
         for k in cls.mro():
@@ -882,6 +894,13 @@ def rule_k(ctx):
     rule_connection_end_signalled(ctx, 'C11.k')
 
 
+def rule_l(ctx):
+    """close() through the awaitable adapter really closes: the coroutine of the wrapped socket's close() (and of
+    connect / __aenter__ / __aexit__) is awaited or handed to the caller (rules/awaitable.py)."""
+    from .awaitable import rule_delegations
+    rule_delegations(ctx, 'C11.l')
+
+
 def rule_plumbing(ctx):
     from . import plumbing
     plumbing.rule_fail_unsent(ctx, 'C11.g')
@@ -890,4 +909,4 @@ def rule_plumbing(ctx):
 
 
 RULES = [('C11.a', rule_a), ('C11.b', rule_b), ('C11.b', rule_b2), ('C11.c', rule_c), ('C11.d', rule_d), ('C11.e', rule_e),
-         ('C11.f', rule_f), ('C11.g', rule_g), ('C11.h', rule_h), ('C11.i', rule_i), ('C11.f', rule_wrap), ('C11.g+C11.e', rule_plumbing), ('C11.j', rule_group_close), ('C11.k', rule_k)]
+         ('C11.f', rule_f), ('C11.g', rule_g), ('C11.h', rule_h), ('C11.i', rule_i), ('C11.f', rule_wrap), ('C11.g+C11.e', rule_plumbing), ('C11.j', rule_group_close), ('C11.k', rule_k), ('C11.l', rule_l)]
